@@ -777,9 +777,11 @@ func runEncrypt(rc *RunCtx, prop string) {
 		}
 	}
 	allNone := false
+	allNoneNoWrapper := false
 	if prop == "C10" && tp.Choose(6, "allnone") == 0 {
 		overrides = map[encrypt.DataClassification]encrypt.FilterOperation{encrypt.PublicClassification: "", encrypt.SensitiveClassification: "", encrypt.SecretClassification: ""}
 		allNone = true
+		allNoneNoWrapper = tp.Choose(2, "nowrapper") == 0 // a no-op filter needs no wrapper
 	}
 	kv := &keyVersion{n: 1, key: keyBytes(1)}
 	kv.w = newAead(kv.key, "key-1")
@@ -798,6 +800,9 @@ func runEncrypt(rc *RunCtx, prop string) {
 		f.FilterOperationOverrides = overrides
 	}
 	var fw *failWrapper
+	if allNoneNoWrapper {
+		wrapperMode = "none"
+	}
 	switch wrapperMode {
 	case "aead":
 		f.Wrapper = kv.w
@@ -846,6 +851,22 @@ func runEncrypt(rc *RunCtx, prop string) {
 				cur = nv
 				simrt.Probe("encrypt.rotated")
 			}
+			// the overrides of a live filter may be reconfigured between events
+			if (prop == "C09" || prop == "C10") && i > 0 && !allNone && tp.Choose(4, "reconfigure") == 0 {
+				overrides = map[encrypt.DataClassification]encrypt.FilterOperation{}
+				for _, cls := range []encrypt.DataClassification{encrypt.PublicClassification, encrypt.SensitiveClassification, encrypt.SecretClassification} {
+					if tp.Choose(3, "override?") == 0 {
+						overrides[cls] = allOps[tp.Choose(4, "override")]
+					}
+				}
+				if len(overrides) > 0 {
+					f.FilterOperationOverrides = overrides
+				} else {
+					f.FilterOperationOverrides = nil
+				}
+				simrt.Probe("encrypt.overrides-changed")
+				descs = append(descs, "overrides replaced")
+			}
 			d := &drawRec{tape: tp}
 			fill := []int{15, 40, 80}[tp.Choose(3, "fill")]
 			g := &encGen{d: d, exp: map[string]*leafExp{}, overrides: overrides, fill: fill, withIgnored: withIgnored}
@@ -853,7 +874,7 @@ func runEncrypt(rc *RunCtx, prop string) {
 			depth := tp.Choose(3, "depth")
 			var payload interface{}
 			var top string
-			useInfo := (prop == "C16" || prop == "C09") && tp.Choose(4, "eventinfo") == 0
+			useInfo := (prop == "C16" || prop == "C09" || (prop == "C10" && allNone)) && tp.Choose(4, "eventinfo") == 0
 			badTag := prop == "C09" && tp.Choose(12, "badtag") == 0
 			var info *encWithInfo
 			switch {
@@ -958,6 +979,10 @@ func runEncrypt(rc *RunCtx, prop string) {
 				}
 			}
 			_ = needsWrapper
+			if err != nil && allNone {
+				rc.Failf("C10.noop-identity", "error", "with every operation overridden to none the event must be forwarded unchanged, got error: %v", err)
+				continue
+			}
 			if err != nil {
 				if out != nil {
 					continue
